@@ -88,6 +88,11 @@ theorem blocks_match :
 
 theorem listProps_pinned : listProps.length = 9 := by decide +kernel
 
+/-- the labels `noEmptyBlocks` / `empty_blocks_absent` speak about are exactly the labels of the `{ … }` blocks the generator
+can create, at any depth (`Gen.ProfileGen.blocks`: every block path found in the source, prefix closed) -/
+theorem brace_labels_are_blocks :
+    sameSet (Gen.ProfileGen.blocks.filterMap List.getLast?) (braceLabels.map toText) = true := by decide +kernel
+
 /-- the settings loop starts with `if isinstance(value, str): value = value.encode("latin-1")`: text taken from the
 configuration reaches `value_to_string` as bytes (`vts (.str s) = C12.valueToString s`, everything escaped).  Without it
 `str` values would take the `str` path, which escapes `"` only (a backslash in a user agent would change the value). -/
